@@ -29,7 +29,7 @@ def gen(ctx):
         else:
             init = [rng.choice([-1, 1]) for _ in range(N)]
         c = dict(kind="hop", P=P, init=init, T=rng.randint(1, 3 * N), seed=rng.randrange(10 ** 6),
-                 pdtype=rng.choice(["int64", "int8", "int16", "int32", "list"]), sdtype=rng.choice(["int32", "int8", "int64", "int16"]))
+                 pdtype=rng.choice(["int64", "int8", "int16", "int32", "list"]), sdtype=rng.choice(["int32", "int8", "int64", "int16", "float64", "float32"]))     # bipolar states may be -1.0 / +1.0
         if rng.random() < 0.3:
             # the net was trained on other patterns before: train() SETS the weights, it does not accumulate
             c["pre"] = [[rng.choice([-1, 1]) for _ in range(N)] for _ in range(rng.randint(1, 3))]
@@ -125,7 +125,7 @@ def impl(c):
         return fmt.err(e)
     if c["kind"] == "train":
         return "ok " + fmt.mat(net.W.tolist())
-    return "ok rows=" + fmt.mat(res.tolist())
+    return "ok rows=" + fmt.mat(np.rint(np.asarray(res, dtype=np.float64)).astype(np.int64).tolist())
 
 
 def oracle(c):
